@@ -4,7 +4,7 @@ specs/Cli.tla        definition (Render, Admissible = Parse as a set of admissib
                      what the derive leaves undocumented), transcription of the generated matcher (MStep),
                      cause-buffer definition
 specs/CliShapes.tla  the shape family as data  } both GENERATED from lib/checks/cli_shapes.py; the check is
-harness/src/bin/clishapes.rs  ... as real types } a TOOL error if either file differs from a fresh emission
+harness/src/bin/clishapes_gNN.rs ... as real types } a TOOL error if a file differs from a fresh emission
 specs/CliGen.tla     TLC: runs the transcription on every argument list (<= MaxLen over the shape's token
                      alphabet) and every rendered assignment x order; prints {s, a, adm, tr, trok, rt}
 specs/CliCause.tla   TLC: the 128-byte cause buffer machine = its definition; prints vectors
@@ -131,7 +131,69 @@ def gen(chk, mode, shapes, maxlen, tier, tag, workers=8, timeout=3000):
     return vecs
 
 
-def run_driver(chk, bindir, vecs, tag):
+class Drivers:
+    """The driver binaries, one per group of shapes, built from /repo's current tree.  A group whose derive
+    expansion does not compile is an OUTCOME (`expansion_rejected`), not a tool error: the shapes of the
+    family are valid declarations by construction, so there must be a parser."""
+
+    def __init__(self, chk):
+        self.chk = chk
+        self.rejected = {}          # group -> first error line of the compiler
+        ng = len(SH.groups())
+        bins = [SH.bin_name(g) for g in range(ng)]
+        try:
+            self.bindir = core.cargo_build(bins=bins, extra=["--keep-going"])
+        except core.ToolError:
+            # some expansion does not compile: build group by group to find out which
+            self.bindir = None
+            for g in range(ng):
+                try:
+                    self.bindir = core.cargo_build(bins=[bins[g]])
+                except core.ToolError as e:
+                    msg = str(e)
+                    errs = [l for l in msg.splitlines() if l.startswith("error") and "could not compile" not in l]
+                    detail = errs[0] if errs else msg.splitlines()[-1]
+                    more = [l.strip() for l in msg.splitlines() if "panicked" in l or "message:" in l or l.strip().startswith("= help: message")]
+                    self.rejected[g] = (detail + (" / " + more[0] if more else ""))[:400]
+            if self.bindir is None:
+                raise core.ToolError("no clishapes driver builds: %s" % self.rejected)
+        for g, detail in sorted(self.rejected.items()):
+            names = [SH.SHAPES[i - 1]["name"] for i in SH.groups()[g]]
+            chk.violate({"op": "derive", "got": "expansion_rejected"},
+                        "the derive expansion of a valid declaration does not compile (driver %s, shapes %s): %s" % (
+                            SH.bin_name(g), ", ".join(names), detail),
+                        {"mode": "build", "group": g, "shapes": names, "detail": detail})
+        if self.rejected:
+            chk.extra["expansion_rejected"] = {SH.bin_name(g): d for g, d in self.rejected.items()}
+
+    def ok(self, s):
+        return SH.group_of(s) not in self.rejected
+
+    def exe(self, g):
+        return os.path.join(self.bindir, SH.bin_name(g))
+
+    def any_exe(self):
+        return self.exe(min(g for g in range(len(SH.groups())) if g not in self.rejected))
+
+
+def run_driver(chk, drv, vecs, tag):
+    """vecs: list of {s, a} -> raw driver lines in the same order; vectors of a shape whose driver does not
+    build are answered {"r": "skipped"}."""
+    lines = [None] * len(vecs)
+    by = {}
+    for k, v in enumerate(vecs):
+        if drv.ok(v["s"]):
+            by.setdefault(SH.group_of(v["s"]), []).append(k)
+        else:
+            lines[k] = {"i": k, "r": "skipped"}
+    for g, ks in sorted(by.items()):
+        part = run_driver_one(chk, drv.exe(g), [vecs[k] for k in ks], "%s_g%02d" % (tag, g + 1))
+        for k, r in zip(ks, part):
+            lines[k] = r
+    return lines
+
+
+def run_driver_one(chk, exe, vecs, tag):
     """vecs: list of {s, a}. -> list of raw driver lines (same order).  A vector on which the real
     parser kills the process (signal) or makes no progress for 10 s (status 43) is data:
     {"r": "crash"|"hang"}; it is pinned down by re-running from the last answered vector with a flush
@@ -144,7 +206,7 @@ def run_driver(chk, bindir, vecs, tag):
     flush = False
     deaths = 0
     while len(lines) < len(vecs):
-        cmd = [os.path.join(bindir, "clishapes"), "parse", path, str(len(lines))] + (["flush"] if flush else [])
+        cmd = [exe, "parse", path, str(len(lines))] + (["flush"] if flush else [])
         p = core.run_cmd(cmd, timeout=3000, check=False)
         for l in p.stdout.splitlines():
             try:
@@ -224,16 +286,21 @@ def model_selfcheck(chk, tier):
         sum(len(SH.alphabet(s)) ** k for k in range(maxlen + 1)) for s in SH.SHAPES)
 
 
-def check_helps(chk, bindir):
+def check_helps(chk, drv):
     """The help text of every struct level names every option literal, positional and command of that
     struct (that is what makes it the relevant help); levels have pairwise different texts."""
-    p = core.run_cmd([os.path.join(bindir, "clishapes"), "helps"], timeout=120)
     got = {}
-    for l in p.stdout.splitlines():
-        r = json.loads(l)
-        got[(r["s"], tuple(r["lvl"]))] = r["help"]
+    for g in range(len(SH.groups())):
+        if g in drv.rejected:
+            continue
+        p = core.run_cmd([drv.exe(g), "helps"], timeout=120)
+        for l in p.stdout.splitlines():
+            r = json.loads(l)
+            got[(r["s"], tuple(r["lvl"]))] = r["help"]
     n = 0
     for k, shape in enumerate(SH.SHAPES):
+        if not drv.ok(k + 1):
+            continue
         texts = []
         for lvl, st in SH.walk(shape):
             h = got.get((k + 1, lvl))
@@ -256,7 +323,8 @@ def check_helps(chk, bindir):
                 chk.traces += 1
         if len(set(texts)) != len(texts):
             raise core.ToolError("two levels of shape %s have the same help text: levels cannot be told apart" % shape["name"])
-    chk.sample({"help_of": SH.SHAPES[10]["name"], "text": got[(11, ())]})
+    if (11, ()) in got:
+        chk.sample({"help_of": SH.SHAPES[10]["name"], "text": got[(11, ())]})
     return n
 
 
@@ -346,7 +414,7 @@ def judge_inputs(rng, tier, renders):
 # --------------------------------------------------------------------------------------------
 # the cause buffer
 # --------------------------------------------------------------------------------------------
-def check_cause(chk, bindir, tier):
+def check_cause(chk, drv, tier):
     cfg = os.path.join(chk.work, "CliCause.cfg")
     with open(cfg, "w") as f:
         f.write("CONSTANTS\n  Pieces = {0, 1, 27, 60, 67, 68, 100, 127, 128, 129, 300}\n  MaxPieces = %d\n" % (3 if tier == "quick" else 4))
@@ -360,7 +428,7 @@ def check_cause(chk, bindir, tier):
         raise core.ToolError("CliCause printed %d vectors, expected %d" % (len(vecs), expect))
     path = os.path.join(chk.work, "cause.ndjson")
     core.write_ndjson(path, [{"pieces": v["pieces"]} for v in vecs])
-    p = core.run_cmd([os.path.join(bindir, "clishapes"), "cause", path], timeout=1200)
+    p = core.run_cmd([drv.any_exe(), "cause", path], timeout=1200)
     lines = [json.loads(l) for l in p.stdout.splitlines()]
     if len(lines) != len(vecs):
         raise core.ToolError("cause driver answered %d of %d" % (len(lines), len(vecs)))
@@ -430,13 +498,13 @@ def run(tier):
     bad_sync = SH.in_sync()
     if bad_sync:
         raise core.ToolError("shape table and generated files differ (run python3 lib/checks/cli_shapes.py --write): %s" % bad_sync)
-    bindir = core.cargo_build(bins=["clishapes"])
+    drv = Drivers(chk)
     rng = random.Random(chk.seed)
     shapes = list(range(1, NS + 1))
     maxlen = 3 if tier == "quick" else 4
 
     model_selfcheck(chk, tier)
-    n_help = check_helps(chk, bindir)
+    n_help = check_helps(chk, drv)
     core.log("FastIsFull self-check, %d help texts (%.0fs)" % (n_help, time.time() - chk.t0))
     # ---- TLC: transcription vs definition on all lists / all renderings; vectors; real runs.
     # One batch at a time (generate -> run the real parser -> compare -> forget) bounds memory.
@@ -446,7 +514,7 @@ def run(tier):
 
     def batch(mode, sel, ml, tag):
         vecs = gen(chk, mode, sel, ml, tier, tag)
-        lines = run_driver(chk, bindir, vecs, "gen_" + tag)
+        lines = run_driver(chk, drv, vecs, "gen_" + tag)
         st["n"][mode] += len(vecs)
         for v, raw in zip(vecs, lines):
             if raw["r"] == "skipped":
@@ -516,12 +584,12 @@ def run(tier):
     chk.extra["list_length_bound"] = bounds
 
     # ---- the cause buffer
-    n_cause, nt_cause = check_cause(chk, bindir, tier)
+    n_cause, nt_cause = check_cause(chk, drv, tier)
     chk.extra["model_conformance"] = drift == 0 and chk.extra["cause_buffer_drift"] == 0
 
     # ---- judge: non-UTF-8, long, random, mutated
     ji = judge_inputs(rng, tier, render_sample)
-    jl = run_driver(chk, bindir, ji, "judge")
+    jl = run_driver(chk, drv, ji, "judge")
     recs = []
     keep = [k for k, raw in enumerate(jl) if raw["r"] != "skipped"]
     ji = [ji[k] for k in keep]
@@ -577,14 +645,14 @@ def run(tier):
 def selftest():
     """(1) corrupted records must be rejected by the judge; (2) a stored negative patch must be detected."""
     chk = core.Check(PID, "quick", "model_checking")
-    bindir = core.cargo_build(bins=["clishapes"])
+    drv = Drivers(chk)
 
     def tok(x):
         return list(x.encode())
     base = [{"s": 5, "a": [tok("--req-field"), tok("7"), tok("--rep"), tok("1"), tok("--rep"), tok("2")]},
             {"s": 8, "a": [tok("cmd-two"), tok("-h")]},
             {"s": 1, "a": []}]
-    raws = run_driver(chk, bindir, base, "selftest")
+    raws = run_driver(chk, drv, base, "selftest")
     good = [{"s": v["s"], "a": v["a"], "out": normalise(r)} for v, r in zip(base, raws)]
     corrupt = [json.loads(json.dumps(g)) for g in good]
     corrupt[0]["out"]["v"]["f"][2] = [2]                 # repeated field lost its first value
@@ -607,16 +675,22 @@ def selftest():
 def replay(path):
     rp = json.load(open(path))["replay"]
     chk = core.Check(PID, "quick", "model_checking")
-    bindir = core.cargo_build(bins=["clishapes"])
+    drv = Drivers(chk)
+    if rp.get("mode") == "build":
+        print("expansion rejected now: %s" % (drv.rejected or "nothing"))
+        return 1 if drv.rejected else 0
     if rp.get("mode") == "help":
-        print(core.run_cmd([os.path.join(bindir, "clishapes"), "helps"]).stdout)
+        print(core.run_cmd([drv.exe(SH.group_of(rp["s"])), "helps"]).stdout)
         return 0
     if rp.get("mode") == "cause":
         p = os.path.join(chk.work, "replay_cause.ndjson")
         core.write_ndjson(p, [{"pieces": rp["pieces"]}])
-        print(core.run_cmd([os.path.join(bindir, "clishapes"), "cause", p]).stdout)
+        print(core.run_cmd([drv.any_exe(), "cause", p]).stdout)
         return 0
-    raw = run_driver(chk, bindir, [{"s": rp["s"], "a": rp["a"]}], "replay")[0]
+    raw = run_driver(chk, drv, [{"s": rp["s"], "a": rp["a"]}], "replay")[0]
+    if raw["r"] == "skipped":
+        print("the shape's driver does not build: %s" % drv.rejected)
+        return 1
     out = normalise(raw)
     bad = judge_with_tlc(chk, [{"s": rp["s"], "a": rp["a"], "out": out}], "replay")
     shape = SH.SHAPES[rp["s"] - 1]["name"]
